@@ -220,6 +220,9 @@ func (np *NetworkPolicy) ruleSelectsPeer(rulePeers []netv1.NetworkPolicyPeer, pe
 	if len(rulePeers) == 0 {
 		return true, nil // If this field is empty or missing, this rule matches all destinations
 	}
+	// the peers of a rule come in no particular order, so all of them are examined even if the given peer is selected
+	// already: an invalid rule peer is reported wherever it stands in the list
+	selected := false
 	for i := range rulePeers {
 		if rulePeers[i].PodSelector == nil && rulePeers[i].NamespaceSelector == nil && rulePeers[i].IPBlock == nil {
 			return false, np.netpolErr(netpolerrors.RulePeerErrTitle, netpolerrors.EmptyRulePeerErrStr)
@@ -262,7 +265,7 @@ func (np *NetworkPolicy) ruleSelectsPeer(rulePeers []netv1.NetworkPolicyPeer, pe
 				}
 			}
 			if peerMatchesPodSelector {
-				return true, nil //  matching both pod selector and ns_selector here
+				selected = true //  matching both pod selector and ns_selector here
 			}
 		} else { // ipblock
 			if peer.PeerType() == PodType {
@@ -278,11 +281,11 @@ func (np *NetworkPolicy) ruleSelectsPeer(rulePeers []netv1.NetworkPolicyPeer, pe
 			peerIPBlock := peer.GetPeerIPBlock()
 			res := peerIPBlock.IsSubset(ruleIPBlock)
 			if res {
-				return true, nil
+				selected = true
 			}
 		}
 	}
-	return false, nil
+	return selected, nil
 }
 
 // selectorsMatch checks if the given selectors match each other.
